@@ -138,7 +138,14 @@ func TestC15(t *testing.T) {
 			if err != nil {
 				t.Fatal(err)
 			}
-			for _, m := range all {
+			// the order of calls must not matter: half of the proxies see WorkflowService first, and every proxy sees
+			// the whole method list twice (a decision must not depend on what was called before)
+			order := append([]svcMethod{}, all...)
+			if pi%2 == 1 {
+				order = append(append([]svcMethod{}, wf...), admin...)
+			}
+			order = append(order, order...)
+			for _, m := range order {
 				for _, inbound := range []int{1, 0} {
 					for _, bypass := range []bool{false, true} {
 						if bypass && rng.IntN(4) != 0 {
